@@ -246,10 +246,12 @@ pub fn next_solution<'a>(sn: Rc<RefCell<SolutionNode<'a>>>)
                     match &sn_ref.head_sn {
                         Some(head_sn) => {
                             let solution = next_solution(Rc::clone(&head_sn));
+                            // not(G) is decided once: whichever way it goes,
+                            // asking again must not run G a second time.
+                            sn_ref.more_solutions = false;
                             match solution {
                                 Some(_) => return None,
                                 None => {
-                                    sn_ref.more_solutions = false;
                                     return Some(Rc::clone(&sn_ref.ss));
                                 },
                             }
